@@ -196,3 +196,243 @@ Proof.
   intros H Hg. destruct (finditer_loop_in r ng t _ _ _ x (Nat.le_0_l _) H) as (fuel' & p' & ma' & Hp & Hs).
   exact (scan_group_chars r ng fuel' ma' t p' x j v Hp Hs Hg).
 Qed.
+
+(* ================================================================== *)
+(* groups that every path sets, and how long their content is at least *)
+Fixpoint always_set (r : re) (j : nat) : bool :=
+  match r with
+  | Grp i b => (i =? j) || always_set b j
+  | Seq a b => always_set a j || always_set b j
+  | Alt a b => always_set a j && always_set b j
+  | Rep mn _ b => (1 <=? mn) && always_set b j
+  | Ahead b | Behind _ b => always_set b j
+  | _ => false
+  end.
+
+Lemma ms_keeps : forall r s g p j, In p (ms r s g) -> getg g j <> None -> getg (snd p) j <> None.
+Proof.
+  induction r as [|cs|a IHa b IHb|a IHa b IHb|mn mx b IHb|i b IHb|b IHb|w b IHb|ws| |]; intros s g p j Hin Hg.
+  - destruct Hin as [<-|[]]. exact Hg.
+  - apply in_ms_chr in Hin. destruct Hin as (c & t & _ & _ & ->). exact Hg.
+  - apply in_ms_seq in Hin. destruct Hin as (q & Hq & Hp). exact (IHb _ _ _ _ Hp (IHa _ _ _ _ Hq Hg)).
+  - apply in_ms_alt in Hin. destruct Hin as [H|H]; [exact (IHa _ _ _ _ H Hg) | exact (IHb _ _ _ _ H Hg)].
+  - apply in_ms_rep in Hin. destruct Hin as (n & Hc & _). induction Hc as [s g|n s g q p Hq Hc IH]; [exact Hg|]. exact (IH (IHb _ _ _ _ Hq Hg)).
+  - apply in_ms_grp in Hin. destruct Hin as (q & Hq & ->). cbn [snd]. pose proof (IHb _ _ _ _ Hq Hg) as K.
+    destruct (Nat.eq_dec i j) as [->|Ne]; [|rewrite getg_setg_other by exact Ne; exact K].
+    destruct (Nat.lt_ge_cases j (length (snd q))) as [Hlt|Hge]; [rewrite getg_setg_same by exact Hlt; discriminate | rewrite setg_oob by exact Hge; exact K].
+  - cbn [ms] in Hin. destruct (ms b s g) as [|x t] eqn:E; [destruct Hin|]. destruct Hin as [<-|[]]. apply (IHb s g x j); [rewrite E; left; reflexivity | exact Hg].
+  - cbn [ms] in Hin. destruct (back w s) as [s0|]; [|destruct Hin]. destruct (ms b s0 g) as [|x t] eqn:E; [destruct Hin|]. destruct Hin as [<-|[]].
+    apply (IHb s0 g x j); [rewrite E; left; reflexivity | exact Hg].
+  - cbn [ms] in Hin. destruct (at_bnd ws s); [|destruct Hin]. destruct Hin as [<-|[]]. exact Hg.
+  - cbn [ms] in Hin. destruct (at_eos s); [|destruct Hin]. destruct Hin as [<-|[]]. exact Hg.
+  - cbn [ms] in Hin. destruct (idx s); [|destruct Hin]. destruct Hin as [<-|[]]. exact Hg.
+Qed.
+
+Theorem always_set_sound : forall r s g p j, always_set r j = true -> j < length g -> In p (ms r s g) -> getg (snd p) j <> None.
+Proof.
+  induction r as [|cs|a IHa b IHb|a IHa b IHb|mn mx b IHb|i b IHb|b IHb|w b IHb|ws| |]; intros s g p j Ha Hj Hin; cbn [always_set] in Ha; try discriminate.
+  - apply in_ms_seq in Hin. destruct Hin as (q & Hq & Hp). apply orb_true_iff in Ha. destruct Ha as [Ha|Ha].
+    + exact (ms_keeps _ _ _ _ _ Hp (IHa _ _ _ _ Ha Hj Hq)).
+    + apply (IHb (fst q) (snd q) p j Ha); [|exact Hp]. destruct (ms_frame _ _ _ _ Hq) as [L _]. rewrite L. exact Hj.
+  - apply andb_true_iff in Ha. destruct Ha as [A B]. apply in_ms_alt in Hin. destruct Hin as [H|H]; [exact (IHa _ _ _ _ A Hj H) | exact (IHb _ _ _ _ B Hj H)].
+  - apply andb_true_iff in Ha. destruct Ha as [A B]. apply Nat.leb_le in A. apply in_ms_rep in Hin. destruct Hin as (n & Hc & [Hn _]).
+    destruct Hc as [s g|n s g q p Hq Hc]; [lia|].
+    assert (K : getg (snd q) j <> None) by exact (IHb _ _ _ _ B Hj Hq).
+    clear -Hc K. induction Hc as [s g|n s g q' p Hq' Hc IH]; [exact K|]. exact (IH (ms_keeps _ _ _ _ _ Hq' K)).
+  - apply in_ms_grp in Hin. destruct Hin as (q & Hq & ->). cbn [snd]. destruct (ms_frame _ _ _ _ Hq) as [L _].
+    destruct (Nat.eq_dec i j) as [->|Ne]; [rewrite getg_setg_same by (rewrite L; exact Hj); discriminate|].
+    rewrite getg_setg_other by exact Ne. apply orb_true_iff in Ha. destruct Ha as [Ha|Ha]; [apply Nat.eqb_eq in Ha; contradiction | exact (IHb _ _ _ _ Ha Hj Hq)].
+  - cbn [ms] in Hin. destruct (ms b s g) as [|x t] eqn:E; [destruct Hin|]. destruct Hin as [<-|[]]. apply (IHb s g x j Ha Hj). rewrite E. left. reflexivity.
+  - cbn [ms] in Hin. destruct (back w s) as [s0|]; [|destruct Hin]. destruct (ms b s0 g) as [|x t] eqn:E; [destruct Hin|]. destruct Hin as [<-|[]].
+    apply (IHb s0 g x j Ha Hj). rewrite E. left. reflexivity.
+Qed.
+
+(* every path through r consumes at least minw r characters *)
+Fixpoint minw (r : re) : nat :=
+  match r with
+  | Chr _ => 1
+  | Seq a b => minw a + minw b
+  | Alt a b => Nat.min (minw a) (minw b)
+  | Rep mn _ b => mn * minw b
+  | Grp _ b => minw b
+  | _ => 0
+  end.
+
+Theorem ms_minw : forall r s g p mid, In p (ms r s g) -> ext s mid (fst p) -> minw r <= length mid.
+Proof.
+  assert (U : forall s m1 m2 s', ext s m1 s' -> ext s m2 s' -> m1 = m2).
+  { intros s m1 m2 s' (_ & R1 & _) (_ & R2 & _). rewrite R1 in R2. exact (app_inv_tail _ _ _ R2). }
+  induction r as [|cs|a IHa b IHb|a IHa b IHb|mn mx b IHb|i b IHb|b IHb|w b IHb|ws| |]; intros s g p mid Hin He; cbn [minw]; try lia.
+  - destruct (ext_chr _ _ _ _ Hin) as (c & _ & E & _). rewrite (U _ _ _ _ He E). cbn. lia.
+  - apply in_ms_seq in Hin. destruct Hin as (q & Hq & Hp).
+    destruct (ms_extends _ _ _ _ Hq) as (m1 & E1). destruct (ms_extends _ _ _ _ Hp) as (m2 & E2).
+    rewrite (U _ _ _ _ He (ext_trans _ _ _ _ _ E1 E2)), app_length. pose proof (IHa _ _ _ _ Hq E1). pose proof (IHb _ _ _ _ Hp E2). lia.
+  - apply in_ms_alt in Hin. destruct Hin as [H|H]; [pose proof (IHa _ _ _ _ H He) | pose proof (IHb _ _ _ _ H He)]; lia.
+  - apply in_ms_rep in Hin. destruct Hin as (n & Hc & [Hn _]).
+    enough (K : n * minw b <= length mid) by nia.
+    clear Hn. revert mid He. induction Hc as [s g|n s g q p Hq Hc IH]; intros mid He; [cbn; lia|].
+    destruct (ms_extends _ _ _ _ Hq) as (m1 & E1).
+    assert (E2 : exists m2, ext (fst q) m2 (fst p)).
+    { clear -Hc. induction Hc as [s g|n s g q' p Hq' Hc IH]; [exists []; apply ext_nil|]. destruct (ms_extends _ _ _ _ Hq') as (m1 & E1). destruct IH as (m2 & E2).
+      exists (m1 ++ m2). exact (ext_trans _ _ _ _ _ E1 E2). }
+    destruct E2 as (m2 & E2). rewrite (U _ _ _ _ He (ext_trans _ _ _ _ _ E1 E2)), app_length.
+    pose proof (IHb _ _ _ _ Hq E1). pose proof (IH m2 E2). cbn. lia.
+  - apply in_ms_grp in Hin. destruct Hin as (q & Hq & ->). exact (IHb _ _ _ _ Hq He).
+Qed.
+
+(* ---- whatever is captured in group j was consumed by a path through (one of) the bodies of group j ---- *)
+Fixpoint gbodies (r : re) (j : nat) : list re :=
+  match r with
+  | Grp i b => (if i =? j then [b] else []) ++ gbodies b j
+  | Seq a b | Alt a b => gbodies a j ++ gbodies b j
+  | Rep _ _ b | Ahead b | Behind _ b => gbodies b j
+  | _ => []
+  end.
+
+Definition consumed_by (body : re) (mid : list N) : Prop := exists s1 g1 q, In q (ms body s1 g1) /\ ext s1 mid (fst q).
+
+Definition bfact (B : list re) (x : str) (g g' : caps) (j : nat) : Prop :=
+  getg g' j = getg g j \/ exists a b body, getg g' j = Some (a, b) /\ In body B /\ consumed_by body (slice x a b) /\ a <= b <= length x.
+
+Lemma bfact_refl B x g j : bfact B x g g j.
+Proof. left. reflexivity. Qed.
+
+Lemma bfact_trans B1 B2 B x g g' g'' j : incl B1 B -> incl B2 B -> bfact B1 x g g' j -> bfact B2 x g' g'' j -> bfact B x g g'' j.
+Proof.
+  intros H1 H2 [E1|(a & b & bd & E1 & I1 & C1 & L1)] [E2|(a' & b' & bd' & E2 & I2 & C2 & L2)].
+  - left. congruence.
+  - right. exists a', b', bd'. auto.
+  - right. exists a, b, bd. split; [congruence | auto].
+  - right. exists a', b', bd'. auto.
+Qed.
+
+Theorem group_body : forall r s g p, wf_st s -> In p (ms r s g) -> forall j, bfact (gbodies r j) (text_of s) g (snd p) j.
+Proof.
+  induction r as [|cs|a IHa b IHb|a IHa b IHb|mn mx b IHb|i b IHb|b IHb|w b IHb|ws| |]; intros s g p Hwf Hin j.
+  - destruct Hin as [<-|[]]. apply bfact_refl.
+  - apply in_ms_chr in Hin. destruct Hin as (c & t & _ & _ & ->). apply bfact_refl.
+  - apply in_ms_seq in Hin. destruct Hin as (q & Hq & Hp). cbn [gbodies].
+    pose proof (ms_extends _ _ _ _ Hq) as Ex.
+    eapply bfact_trans; [apply incl_appl, incl_refl | apply incl_appr, incl_refl | exact (IHa _ _ _ Hwf Hq j) |].
+    rewrite <- (extends_text _ _ Ex). exact (IHb _ _ _ (extends_wf _ _ Ex Hwf) Hp j).
+  - apply in_ms_alt in Hin. cbn [gbodies]. destruct Hin as [H|H].
+    + eapply bfact_trans; [apply incl_appl, incl_refl | apply incl_refl | exact (IHa _ _ _ Hwf H j) | apply bfact_refl].
+    + eapply bfact_trans; [apply incl_refl | apply incl_appr, incl_refl | apply bfact_refl | exact (IHb _ _ _ Hwf H j)].
+  - apply in_ms_rep in Hin. destruct Hin as (n & Hc & _). cbn [gbodies].
+    induction Hc as [s g|n s g q p Hq Hc IH]; [apply bfact_refl|].
+    pose proof (ms_extends _ _ _ _ Hq) as Ex.
+    eapply bfact_trans; [apply incl_refl | apply incl_refl | exact (IHb _ _ _ Hwf Hq j) |].
+    rewrite <- (extends_text _ _ Ex). exact (IH (extends_wf _ _ Ex Hwf)).
+  - apply in_ms_grp in Hin. destruct Hin as (q & Hq & ->). cbn [snd fst gbodies].
+    pose proof (IHb _ _ _ Hwf Hq j) as Hj.
+    destruct (Nat.eq_dec i j) as [->|Ne].
+    + rewrite Nat.eqb_refl. destruct (Nat.lt_ge_cases j (length (snd q))) as [Hlt|Hge].
+      * right. exists (idx s), (idx (fst q)), b. split; [apply getg_setg_same; exact Hlt|]. split; [left; reflexivity|].
+        destruct (ms_extends _ _ _ _ Hq) as (mid & E). rewrite (ext_slice _ _ _ Hwf E). split; [exists s, g, q; split; assumption|].
+        pose proof (extends_wf _ _ (ext_extends _ _ _ E) Hwf) as Wq. rewrite <- (extends_text _ _ (ext_extends _ _ _ E)).
+        pose proof (extends_idx _ _ (ext_extends _ _ _ E)) as Hi.
+        unfold wf_st in Wq. rewrite Wq in *. unfold text_of. rewrite app_length, rev_length. lia.
+      * rewrite setg_oob by exact Hge. eapply bfact_trans; [apply incl_appr, incl_refl | apply incl_refl | exact Hj | apply bfact_refl].
+    + replace (i =? j) with false by (symmetry; apply Nat.eqb_neq; exact Ne). cbn [app].
+      destruct Hj as [E|(a & b0 & bd & E & I & C & L)]; [left | right; exists a, b0, bd; split; [|auto]]; rewrite getg_setg_other by exact Ne; exact E.
+  - cbn [ms] in Hin. destruct (ms b s g) as [|x t] eqn:E; [destruct Hin|]. destruct Hin as [<-|[]]. cbn [snd gbodies].
+    apply (IHb s g x Hwf). rewrite E. left. reflexivity.
+  - cbn [ms] in Hin. destruct (back w s) as [s0|] eqn:Eb; [|destruct Hin].
+    destruct (ms b s0 g) as [|x t] eqn:E; [destruct Hin|]. destruct Hin as [<-|[]]. cbn [snd gbodies].
+    destruct (back_wf_text _ _ _ Eb Hwf) as [W T]. rewrite <- T. apply (IHb s0 g x W). rewrite E. left. reflexivity.
+  - cbn [ms] in Hin. destruct (at_bnd ws s); [|destruct Hin]. destruct Hin as [<-|[]]. apply bfact_refl.
+  - cbn [ms] in Hin. destruct (at_eos s); [|destruct Hin]. destruct Hin as [<-|[]]. apply bfact_refl.
+  - cbn [ms] in Hin. destruct (idx s); [|destruct Hin]. destruct Hin as [<-|[]]. apply bfact_refl.
+Qed.
+
+(* for a match object: if group j is set its content was consumed by one of group j's bodies -- hence
+   (ms_chars, ms_minw) its characters and its minimal length can be read off the pattern *)
+Lemma consumed_facts body mid : consumed_by body mid -> Forall (inS (csets body)) mid /\ minw body <= length mid.
+Proof.
+  intros (s1 & g1 & q & Hq & E). split; [|exact (ms_minw _ _ _ _ _ Hq E)].
+  destruct (ms_chars _ _ _ _ Hq) as (m' & E' & F). destruct E as (_ & R1 & _). destruct E' as (_ & R2 & _).
+  rewrite R1 in R2. apply app_inv_tail in R2. subst m'. exact F.
+Qed.
+
+(* search with a position window: the state is over the text truncated at e *)
+Lemma st_at_wf t p e : p <= Nat.min e (length t) -> wf_st (st_at t p e) /\ text_of (st_at t p e) = firstn e t.
+Proof.
+  intros Hp. unfold st_at. split.
+  - unfold wf_st. cbn. rewrite rev_length, firstn_length, firstn_length. lia.
+  - unfold text_of. cbn. rewrite rev_involutive. apply firstn_skipn.
+Qed.
+
+Theorem search_pe_group r ng t pos endpos x j :
+  search_pe r ng t pos endpos = Some x ->
+  (always_set r j = true -> j <= ng -> getg (mcaps x) j <> None) /\
+  (forall a b, getg (mcaps x) j = Some (a, b) -> exists body, In body (gbodies r j) /\ consumed_by body (slice t a b)).
+Proof.
+  unfold search_pe. destruct (endpos <? pos); [discriminate|]. unfold clip.
+  set (e := Nat.min endpos (length t)). set (p := Nat.min pos e). intros H.
+  destruct (st_at_wf t p e ltac:(unfold p, e; lia)) as [W T].
+  destruct (scan_caps r ng _ _ _ x W H) as (s' & q & W' & T' & Hin & Hc). rewrite Hc. split.
+  - intros Ha Hj. apply (always_set_sound r s' (init_caps ng) q j Ha); [unfold init_caps; rewrite repeat_length; lia | exact Hin].
+  - intros a b E. destruct (group_body r s' (init_caps ng) q W' Hin j) as [K|(a' & b' & bd & K & I & C & L)].
+    + rewrite E, getg_init in K. discriminate.
+    + rewrite E in K. injection K as <- <-. exists bd. split; [exact I|]. rewrite T', T in C, L.
+      replace (slice t a b) with (slice (firstn e t) a b); [exact C|]. unfold slice. rewrite firstn_length in L.
+      rewrite <- (firstn_skipn e t) at 2. rewrite skipn_app, firstn_app.
+      replace (a - length (firstn e t)) with 0 by (rewrite firstn_length; lia).
+      replace (b - a - length (skipn a (firstn e t))) with 0 by (rewrite skipn_length, firstn_length; lia).
+      cbn [skipn firstn]. rewrite app_nil_r. reflexivity.
+Qed.
+
+(* every path sets at least one group of the list (e.g. "range number, or the range-2 edge case") *)
+Fixpoint always_any (r : re) (js : list nat) : bool :=
+  match r with
+  | Grp i b => existsb (Nat.eqb i) js || always_any b js
+  | Seq a b => always_any a js || always_any b js
+  | Alt a b => always_any a js && always_any b js
+  | Rep mn _ b => (1 <=? mn) && always_any b js
+  | Ahead b | Behind _ b => always_any b js
+  | _ => false
+  end.
+
+Definition some_set (g : caps) (js : list nat) : Prop := exists j, In j js /\ getg g j <> None.
+
+Lemma some_set_keeps r s g p js : In p (ms r s g) -> some_set g js -> some_set (snd p) js.
+Proof. intros Hin (j & Hj & Hg). exists j. split; [exact Hj | exact (ms_keeps _ _ _ _ _ Hin Hg)]. Qed.
+
+Theorem always_any_sound : forall r s g p js, always_any r js = true -> (forall j, In j js -> j < length g) -> In p (ms r s g) -> some_set (snd p) js.
+Proof.
+  induction r as [|cs|a IHa b IHb|a IHa b IHb|mn mx b IHb|i b IHb|b IHb|w b IHb|ws| |]; intros s g p js Ha Hj Hin; cbn [always_any] in Ha; try discriminate.
+  - apply in_ms_seq in Hin. destruct Hin as (q & Hq & Hp). apply orb_true_iff in Ha. destruct Ha as [Ha|Ha].
+    + exact (some_set_keeps _ _ _ _ _ Hp (IHa _ _ _ _ Ha Hj Hq)).
+    + apply (IHb (fst q) (snd q) p js Ha); [|exact Hp]. destruct (ms_frame _ _ _ _ Hq) as [L _]. rewrite L. exact Hj.
+  - apply andb_true_iff in Ha. destruct Ha as [A B]. apply in_ms_alt in Hin. destruct Hin as [H|H]; [exact (IHa _ _ _ _ A Hj H) | exact (IHb _ _ _ _ B Hj H)].
+  - apply andb_true_iff in Ha. destruct Ha as [A B]. apply Nat.leb_le in A. apply in_ms_rep in Hin. destruct Hin as (n & Hc & [Hn _]).
+    destruct Hc as [s g|n s g q p Hq Hc]; [lia|].
+    assert (K : some_set (snd q) js) by exact (IHb _ _ _ _ B Hj Hq).
+    clear -Hc K. induction Hc as [s g|n s g q' p Hq' Hc IH]; [exact K|]. exact (IH (some_set_keeps _ _ _ _ _ Hq' K)).
+  - apply in_ms_grp in Hin. destruct Hin as (q & Hq & ->). cbn [snd]. destruct (ms_frame _ _ _ _ Hq) as [L _].
+    apply orb_true_iff in Ha. destruct Ha as [Ha|Ha].
+    + apply existsb_exists in Ha. destruct Ha as (j & Hin & E). apply Nat.eqb_eq in E. subst j.
+      exists i. split; [exact Hin|]. rewrite getg_setg_same by (rewrite L; exact (Hj i Hin)). discriminate.
+    + destruct (IHb _ _ _ _ Ha Hj Hq) as (j & Hin & Hg). exists j. split; [exact Hin|].
+      destruct (Nat.eq_dec i j) as [->|Ne]; [rewrite getg_setg_same by (rewrite L; exact (Hj j Hin)); discriminate | rewrite getg_setg_other by exact Ne; exact Hg].
+  - cbn [ms] in Hin. destruct (ms b s g) as [|x t] eqn:E; [destruct Hin|]. destruct Hin as [<-|[]]. apply (IHb s g x js Ha Hj). rewrite E. left. reflexivity.
+  - cbn [ms] in Hin. destruct (back w s) as [s0|]; [|destruct Hin]. destruct (ms b s0 g) as [|x t] eqn:E; [destruct Hin|]. destruct Hin as [<-|[]].
+    apply (IHb s0 g x js Ha Hj). rewrite E. left. reflexivity.
+Qed.
+
+(* the same facts for the match objects of finditer over the whole text *)
+Theorem finditer_group r ng t x :
+  In x (finditer r ng t) ->
+  (forall js, always_any r js = true -> (forall j, In j js -> j <= ng) -> some_set (mcaps x) js) /\
+  (forall j a b, getg (mcaps x) j = Some (a, b) -> exists body, In body (gbodies r j) /\ consumed_by body (slice t a b)).
+Proof.
+  unfold finditer, finditer_pe. replace (length t <? 0) with false by reflexivity. unfold clip. rewrite Nat.min_id, Nat.min_0_l.
+  intros H. destruct (finditer_loop_in r ng t _ _ _ x (Nat.le_0_l _) H) as (fuel' & p' & ma' & Hp & Hs).
+  destruct (st_at_wf_text t p' Hp) as [W T].
+  destruct (scan_caps r ng fuel' ma' _ x W Hs) as (s' & q & W' & T' & Hin & Hc). rewrite Hc. split.
+  - intros js Ha Hj. apply (always_any_sound r s' (init_caps ng) q js Ha); [|exact Hin].
+    intros j Hjn. unfold init_caps. rewrite repeat_length. specialize (Hj j Hjn). lia.
+  - intros j a b E. destruct (group_body r s' (init_caps ng) q W' Hin j) as [K|(a' & b' & bd & K & I & C & L)].
+    + rewrite E, getg_init in K. discriminate.
+    + rewrite E in K. injection K as <- <-. exists bd. split; [exact I|]. rewrite T', T in C. exact C.
+Qed.
